@@ -56,7 +56,12 @@ class FakeTransport(asyncio.Transport):
         self._conn_lost = 0
         self._lost_called = False
         self.closed_by: Optional[str] = None
-        self.writes: list[tuple[float, bytes]] = []
+        self._writes: list[tuple[float, bytes]] = []
+        # A selector transport that cannot hand bytes to the kernel at once (peer not reading) appends the *object* it was
+        # given to its buffer, not a copy (selector_events.write: `self._buffer.append(data)`).  While this connection is
+        # congested (net.slow_peer, back-pressure armed or writing paused) mutable objects are therefore kept by reference
+        # and read again when the buffer is flushed: what the peer receives is their content at that time.
+        self._held: list[tuple[int, object]] = []
         self.rx_log = bytearray()  # every byte delivered to the client on this connection
         self.fail_after: Optional[int] = None  # fail the n-th write from now (1-based)
         self.black_hole = False
@@ -124,7 +129,9 @@ class FakeTransport(asyncio.Transport):
         b = bytes(data)
         now = self.loop.time()
         self._tx_count += len(b)
-        self.writes.append((now, b))
+        self._writes.append((now, b))
+        if type(data) is not bytes and (self.net.slow_peer or self.write_paused or self.pause_after is not None):
+            self._held.append((len(self._writes) - 1, data))
         self.net._event("tx", self.cid, b)
         if self.net.on_data is not None and not self.black_hole:
             self.net.on_data(self, b)
@@ -229,10 +236,30 @@ class FakeTransport(asyncio.Transport):
             self.protocol.pause_writing()
 
     def resume_writing(self) -> None:
+        self._flush_held()
         if self.write_paused:
             self.write_paused = False
             self.net._event("resume", self.cid)
             self.protocol.resume_writing()
+
+    @property
+    def writes(self) -> list:
+        """(time, bytes) per write() call, as the peer receives them (held references are read at flush time)."""
+        self._flush_held()
+        return self._writes
+
+    def _flush_held(self) -> None:
+        held, self._held = self._held, []
+        for idx, ref in held:
+            try:
+                cur = bytes(ref)
+            except (ValueError, BufferError):  # released memoryview
+                cur = b""
+            t, was = self._writes[idx]
+            if cur != was:
+                self._writes[idx] = (t, cur)
+                self.net.altered.append({"cid": self.cid, "written_at": t, "was": was.hex(), "sent": cur.hex()})
+                self.net._event("altered", self.cid, cur)
 
     def tx_bytes(self) -> bytes:
         return b"".join(b for _, b in self.writes)
@@ -259,6 +286,8 @@ class FakeNet:
         self.finalizer_closed: list = []  # connections the client dropped without closing them (closed by StreamWriter.__del__)
         self.arm_bytes_on_accept: list = []   # byte offsets at which the next accepted connections die while being written to
         self.pause_on_accept: list = []  # back-pressure positions (n-th write) for the next accepted connections
+        self.slow_peer = False           # peers take bytes late: transports keep written objects by reference until flushed
+        self.altered: list = []          # writes whose object was changed between write() and the flush
         _CURRENT[0] = self
 
     def _event(self, kind: str, *args) -> None:
